@@ -245,6 +245,10 @@ fn test_durations(c: &DtDur, cx: &mut Cx) -> CaseResult {
     let sat = dt.saturating_add(d);
     let wsat = want.unwrap_or(if ns < 0 { dt_fields(DateTime::MIN) } else { dt_fields(DateTime::MAX) });
     ensure!(dt_fields(sat) == wsat, "datetime.saturating_add(duration)-wrong", "{ctx}: saturating_add = {sat} want {wsat:?}");
+    // saturating_sub clamps in the direction of the *negated* operand
+    let sat = dt.saturating_sub(d);
+    let wsat = wsub.unwrap_or(if ns > 0 { dt_fields(DateTime::MIN) } else { dt_fields(DateTime::MAX) });
+    ensure!(dt_fields(sat) == wsat, "datetime.saturating_sub(duration)-wrong", "{ctx}: saturating_sub = {sat} want {wsat:?}");
     // Date: only whole days (truncated toward zero) are considered
     let days = ns / NS_PER_DAY;
     let dn = rc::to_days(base.0, base.1, base.2) as i128 + days;
@@ -253,6 +257,12 @@ fn test_durations(c: &DtDur, cx: &mut Cx) -> CaseResult {
     let dn = rc::to_days(base.0, base.1, base.2) as i128 - days;
     let wdate_sub = if ra::days_in_range(dn) { Some(rc::from_days(dn as i64)) } else { None };
     cmp_date("date.checked_sub(duration)", date.checked_sub(d), wdate_sub, &ctx)?;
+    let sat = date.saturating_add(d);
+    let w = wdate.unwrap_or(if ns < 0 { (-9999, 1, 1) } else { (9999, 12, 31) });
+    ensure!(ymd_of(sat) == w, "date.saturating_add(duration)-wrong", "{ctx}: date saturating_add = {sat} want {w:?}");
+    let sat = date.saturating_sub(d);
+    let w = wdate_sub.unwrap_or(if ns > 0 { (-9999, 1, 1) } else { (9999, 12, 31) });
+    ensure!(ymd_of(sat) == w, "date.saturating_sub(duration)-wrong", "{ctx}: date saturating_sub = {sat} want {w:?}");
     // Time: wrapping exact mod 24h; checked fails exactly when leaving the day
     let wrap = (base.3 + ns).rem_euclid(NS_PER_DAY);
     let g = time.wrapping_add(d);
@@ -271,6 +281,11 @@ fn test_durations(c: &DtDur, cx: &mut Cx) -> CaseResult {
     let sat = time.saturating_add(d);
     let wsat = wt.unwrap_or(if ns < 0 { 0 } else { NS_PER_DAY - 1 });
     ensure!(tod_of(sat) == wsat, "time.saturating_add(duration)-wrong", "{ctx}: time saturating_add = {sat} want {wsat}");
+    let exact_sub = base.3 - ns;
+    let wt_sub = if (0..NS_PER_DAY).contains(&exact_sub) { Some(exact_sub) } else { None };
+    let sat = time.saturating_sub(d);
+    let wsat = wt_sub.unwrap_or(if ns > 0 { 0 } else { NS_PER_DAY - 1 });
+    ensure!(tod_of(sat) == wsat, "time.saturating_sub(duration)-wrong", "{ctx}: time saturating_sub = {sat} want {wsat}");
     // unsigned std Duration
     if ns >= 0 {
         let u = StdDuration::new(c.secs as u64, c.nanos as u32);
@@ -280,6 +295,12 @@ fn test_durations(c: &DtDur, cx: &mut Cx) -> CaseResult {
         cmp_date("date.checked_sub(std)", date.checked_sub(u), wdate_sub, &ctx)?;
         ensure!(tod_of(time.wrapping_add(u)) == wrap, "time.wrapping_add(std)-wrong", "{ctx}: time wrapping_add(std)");
         ensure!(tod_of(time.wrapping_sub(u)) == wrap_sub, "time.wrapping_sub(std)-wrong", "{ctx}: time wrapping_sub(std)");
+        let w = wt_sub.unwrap_or(if ns > 0 { 0 } else { NS_PER_DAY - 1 });
+        ensure!(tod_of(time.saturating_sub(u)) == w, "time.saturating_sub(std)-wrong", "{ctx}: time saturating_sub(std) = {} want {w}", time.saturating_sub(u));
+        let w = wsub.unwrap_or(if ns > 0 { dt_fields(DateTime::MIN) } else { dt_fields(DateTime::MAX) });
+        ensure!(dt_fields(dt.saturating_sub(u)) == w, "datetime.saturating_sub(std)-wrong", "{ctx}: saturating_sub(std) = {} want {w:?}", dt.saturating_sub(u));
+        let w = want.unwrap_or(dt_fields(DateTime::MAX));
+        ensure!(dt_fields(dt.saturating_add(u)) == w, "datetime.saturating_add(std)-wrong", "{ctx}: saturating_add(std) = {} want {w:?}", dt.saturating_add(u));
     }
     Ok(())
 }
@@ -288,7 +309,9 @@ fn strat_durations() -> BoxedStrategy<DtDur> {
     (gen::ymd(), gen::tod_ns(), gen::signed_duration())
         .prop_map(|(ymd, tod, (secs, nanos))| {
             // make the sign coherent so that StdDuration::new is well defined
-            let nanos = if secs < 0 { -nanos.abs() } else { nanos.abs() };
+            // (for secs == 0 the generated sign of the nanoseconds is kept: durations strictly
+            // between -1s and 0 have zero seconds and negative nanoseconds)
+            let nanos = if secs < 0 { -nanos.abs() } else if secs > 0 { nanos.abs() } else { nanos };
             DtDur { ymd, tod, secs, nanos }
         })
         .boxed()
